@@ -189,9 +189,9 @@ func suiteC19(cfg Config, res *Result) {
 			pc := ProgCase{Src: full, Ctx: &c, Label: fmt.Sprintf("filtertag/len=%d", k)}
 			cases = append(cases, pc)
 			if v2 != nil {
-				wants[pc.Req()] = "ok " + hxb(v2.String())
+				wants[pc.Key()] = "ok " + hxb(v2.String())
 			} else {
-				wants[pc.Req()] = "err exec"
+				wants[pc.Key()] = "err exec"
 			}
 			continue
 		}
@@ -200,7 +200,7 @@ func suiteC19(cfg Config, res *Result) {
 			c := ct
 			bad := ProgCase{Src: fmt.Sprintf("{%% filter upper %%}left over %d {{ 1 / (n - 3) }}{%% endfilter %%}", i), Ctx: &c, Label: "filtertag/poison/len=2"}
 			cases = append(cases, bad)
-			wants[bad.Req()] = "err exec"
+			wants[bad.Key()] = "err exec"
 		}
 		full := strings.ReplaceAll(pos, "V", src)
 		c := ct
@@ -211,9 +211,9 @@ func suiteC19(cfg Config, res *Result) {
 			if strings.Contains(pos, "firstof") && !val.IsTrue() {
 				want = ""
 			}
-			wants[pc.Req()] = "ok " + hxb(want)
+			wants[pc.Key()] = "ok " + hxb(want)
 		} else {
-			wants[pc.Req()] = "err exec"
+			wants[pc.Key()] = "err exec"
 		}
 	}
 	// a parameter is evaluated at every application: parameters that mention the loop variable
@@ -253,13 +253,13 @@ func suiteC19(cfg Config, res *Result) {
 			c := ct
 			pc := ProgCase{Src: "{% autoescape off %}{% for q in l %}{{ " + fp.base + "|" + fp.filter + ":" + shape + `|join:"-" }};{% endfor %}{% endautoescape %}`, Ctx: &c, Label: "loop-param/len=2"}
 			cases = append(cases, pc)
-			wants[pc.Req()] = "ok " + hxb(sb.String())
+			wants[pc.Key()] = "ok " + hxb(sb.String())
 		}
 	}
 	runProgCases(cfg, res, cases, "c19", func(c ProgCase, o ImplOutcome) bool {
 		return !strings.HasSuffix(c.Label, "len=0") && !strings.HasSuffix(c.Label, "len=1")
 	}, func(c ProgCase, o ImplOutcome) *Finding {
-		want := wants[c.Req()]
+		want := wants[c.Key()]
 		got := o.Canon()
 		if got != want {
 			return &Finding{Kind: "oracle", Proj: "chain", Sig: "c19-template-vs-applyfilter", Case: c.String(), Impl: got + " " + o.Msg, Model: "composition of ApplyFilter calls: " + want}
